@@ -16,7 +16,8 @@ from .geom import (check_all, fields_same, meshes_same, qturn, region_eq, region
 
 META = dict(
     bounds=dict(
-        quick=dict(ndim="1..3", n="<=3", histories="every single step (translate / scale scalar+per-axis, any sign / rotate90) from a "
+        quick=dict(also="valid objects / legal steps must be accepted (obligation); objects left behind by copying steps re-checked at the end; nested translate vectors",
+                   ndim="1..3", n="<=3", histories="every single step (translate / scale scalar+per-axis, any sign / rotate90) from a "
                    "constructor state, and 2-step histories mixing in-place and copying forms", objects="Region, Mesh (with subregions), Field"),
         thorough=dict(histories="all 2-step and selected 3-step histories", ndim="1..3", n="<=3"),
     ),
